@@ -232,11 +232,12 @@ Section Theorems.
       rewrite call_func_log_aux. destruct (call_binds (sigs c) p); eauto. }
     destruct (i_dispatch inst) as [d|].
     2:{ destruct R as [R|[c R]]; rewrite R; eauto. }
-    unfold call_dispatcher. destruct (body d (dispatch_args s p)) as [v|cls m|m].
+    unfold call_dispatcher. destruct (body d (dispatch_args s p)) as [v|cls m|m|code m].
     - right; left. cbn [snd]. eauto.
     - destruct (String.eqb cls "AttributeError"); [|right; left; cbn [snd]; eauto].
       destruct (dispatch_resolved body sigs inst s p) as [r ev'] eqn:E. cbn [snd] in *.
       destruct R as [->|[c ->]]; [right; left|right; right]; cbn [app]; eauto.
+    - right; left. cbn. eauto.
     - right; left. cbn. eauto.
   Qed.
 
